@@ -151,3 +151,34 @@ Theorem C19_v2_rebuild_copies_inside : forall (H256 : bytes -> bytes) B, 0 < B -
       prefix (resolve dest) (resolve (dest ++ [full])).
 Proof. exact rebuild_v2_copies_verified_inside. Qed.
 Print Assumptions C19_v2_rebuild_copies_inside.
+
+(* ---------------------------------------------------------------------------------------------- *)
+(* the whole command on the filesystem, the metafile being the only description of the torrent      *)
+(* (Model/RebuildRun.v rebuild_of_metafile = Metadata(path) + Metadata.rebuild + the copypath calls) *)
+(* ---------------------------------------------------------------------------------------------- *)
+From TF Require Model.CopyPath.
+From TF Require Import Model.RebuildRun Proofs.RebuildRunProofs Proofs.RebuildEndToEnd.
+
+(* whatever the metafile says: every path that is different after the command lies in dest/<name of the torrent>, or is dest
+   itself / a missing ancestor directory of dest that was created.  Hypotheses: the filemap describes the filesystem, no
+   candidate lies under dest, and the piece length of a v2 metafile is B * 2^k. *)
+Theorem C19_rebuild_of_metafile_inside_destination : forall (H1 H256 : bytes -> bytes) B, 0 < B ->
+  forall (dsize : nat) (dest : CopyPath.path) (fm : filemap) (meta : value), v2_piece_length_ok B meta ->
+  forall f : CopyPath.fs, filemap_reflects f fm -> dest_disjoint dest fm ->
+  forall r : CopyPath.result, rebuild_of_metafile H1 H256 B dsize dest fm meta f = Some r ->
+  forall p : CopyPath.path, CopyPath.fs_of r p <> f p ->
+  exists x, metadata_init meta = Some x /\
+  (CopyPath.prefix (dest ++ [text (x_name x)]) p \/
+   (CopyPath.prefix p dest /\ p <> [] /\ f p = None /\ CopyPath.fs_of r p = Some CopyPath.Dir)).
+Proof. exact rebuild_of_metafile_inside_destination. Qed.
+Print Assumptions C19_rebuild_of_metafile_inside_destination.
+
+(* the place of an entry in that run, target dest e = dest ++ components, IS the lexical resolution of
+   os.path.join(dest, name, *path) -- and of the text handed to copypath -- for a destination of plain components *)
+Theorem C19_rebuild_target_is_the_resolved_path : forall (dest : CopyPath.path) (meta : value) (x : extracted) (e : entry),
+  metadata_init meta = Some x -> In e (x_files x) -> Forall (fun c => safe_comp c = true) dest ->
+  resolve (dest ++ map text (e_full e)) = target dest e /\
+  resolve (dest ++ [full_text e]) = target dest e /\
+  prefix (resolve dest) (target dest e).
+Proof. exact target_is_resolved. Qed.
+Print Assumptions C19_rebuild_target_is_the_resolved_path.
